@@ -199,12 +199,31 @@ func c14UDP(name string, advances int, closers int, sends []c14send, ts []*expTm
 					}
 				}
 			}
-			before := len(conn.Writes)
+			// "no byte is written afterwards": on this connection or on any other one the process might open
+			allWrites := func() int {
+				n := 0
+				for _, c := range vnet.Conns() {
+					n += len(c.Writes)
+				}
+				return n
+			}
+			before := allWrites()
 			ep.CloseConnToCollector()
 			ep.CloseConnToCollector() // idempotent
 			c14leak("after CloseConnToCollector")
-			if len(conn.Writes) != before {
-				vsched.Fail("write-after-close", "%d messages were written after CloseConnToCollector returned", len(conn.Writes)-before)
+			if allWrites() != before {
+				vsched.Fail("write-after-close", "%d messages were written after CloseConnToCollector returned", allWrites()-before)
+			}
+			// an application that goes on sending after Close gets nothing onto the wire (an error is the
+			// natural outcome; the statement only forbids the bytes)
+			if len(sends) > 0 {
+				late, _ := dataSet(sends[0].tmpl, 1, 5, 0)
+				ep.SendSet(late)
+				vsched.Quiesce()
+				if allWrites() != before {
+					vsched.Fail("write-after-close", "a SendSet issued after CloseConnToCollector had returned put %d message(s) on the wire (connections now: %d)", allWrites()-before, len(vnet.Conns()))
+				}
+				c14leak("after a send that followed CloseConnToCollector")
 			}
 		} else {
 			c14leak("after concurrent CloseConnToCollector calls")
